@@ -73,33 +73,45 @@ fn fork_exec(out: &mut Out, ex: &[Value]) {
         out.line(&json!({"ev":"reset","comp":"fork","cfg":cfg,"r":r_unit(),"o":o}));
         let ops: Vec<&Value> = ex[1..].iter().filter(|e| e["ev"] == "next").collect();
         run_ops!(a, b, ops);
-    } else {
-        // segments between `resplit` events each borrow the fork anew
-        let mut first = true;
-        let mut i = 1;
-        loop {
-            let mut j = i;
-            while j < ex.len() && ex[j]["ev"] != "resplit" {
-                j += 1;
-            }
-            {
-                let (split, hs, _) = measured(|| fork.by_ref());
-                let (mut a, mut b) = split;
-                let o = json!({"ok": true, "pendA": a.pending_frames(), "pendB": b.pending_frames(), "pulls": pulls.get()});
-                if first {
-                    out.line(&json!({"ev":"reset","comp":"fork","cfg":cfg,"r":r_unit(),"o":o}));
-                    first = false;
-                } else {
-                    out.ev("resplit", json!({"x":0}), r_unit(), o, hs);
-                }
-                let ops: Vec<&Value> = ex[i..j].iter().collect();
-                run_ops!(a, b, ops);
-            }
-            if j >= ex.len() {
-                break;
-            }
-            i = j + 1;
+        return;
+    }
+    // segments between `resplit` events each borrow the fork anew; a resplit {to: "rc"} consumes
+    // the (already used) fork into reference-counted branches for the rest of the execution
+    let mut first = true;
+    let mut i = 1;
+    let mut to_rc = false;
+    loop {
+        let mut j = i;
+        while j < ex.len() && ex[j]["ev"] != "resplit" {
+            j += 1;
         }
+        if to_rc {
+            let (split, hs, _) = measured(|| fork.by_rc());
+            let (mut a, mut b) = split;
+            let o = json!({"ok": true, "pendA": a.pending_frames(), "pendB": b.pending_frames(), "pulls": pulls.get()});
+            out.ev("resplit", json!({"to":"rc"}), r_unit(), o, hs);
+            let ops: Vec<&Value> = ex[i..].iter().filter(|e| e["ev"] == "next").collect();
+            run_ops!(a, b, ops);
+            return;
+        }
+        {
+            let (split, hs, _) = measured(|| fork.by_ref());
+            let (mut a, mut b) = split;
+            let o = json!({"ok": true, "pendA": a.pending_frames(), "pendB": b.pending_frames(), "pulls": pulls.get()});
+            if first {
+                out.line(&json!({"ev":"reset","comp":"fork","cfg":cfg,"r":r_unit(),"o":o}));
+                first = false;
+            } else {
+                out.ev("resplit", json!({"to":"ref"}), r_unit(), o, hs);
+            }
+            let ops: Vec<&Value> = ex[i..j].iter().collect();
+            run_ops!(a, b, ops);
+        }
+        if j >= ex.len() {
+            break;
+        }
+        to_rc = ex[j]["a"]["to"] == "rc";
+        i = j + 1;
     }
 }
 
@@ -218,7 +230,7 @@ fn gen(seed: u64, size: &str, path: &str) {
         for _ in 0..n {
             if rng.chance(1, 40) { bias = *rng.pick(&[10, 50, 90, 0, 100]); }
             if variant == "ref" && rng.chance(1, 50) {
-                ex.push(json!({"ev":"resplit","a":{"x":0}}));
+                ex.push(json!({"ev":"resplit","a":{"to": if rng.chance(1, 6) {"rc"} else {"ref"}}}));
                 continue;
             }
             let mut a = (rng.below(100) as i64) < bias;
